@@ -58,4 +58,36 @@ instance (c : Ctl) : Decidable (NoPodAtUntargeted c) := by unfold NoPodAtUntarge
 instance (c : Ctl) (h : String) (sv : Svc) : Decidable (DistinctEps c h sv) := by
   unfold DistinctEps; exact inferInstance
 
+instance (c : Ctl) : Decidable (NodesUnique c) := by unfold NodesUnique; exact inferInstance
+
+/-- decidable form of `SameObjects` -/
+def SameObjectsB (c d : Ctl) : Prop :=
+  ((∀ x ∈ c.svcs, x ∈ d.svcs) ∧ (∀ x ∈ d.svcs, x ∈ c.svcs)) ∧
+  ((∀ x ∈ c.slices, x ∈ d.slices) ∧ (∀ x ∈ d.slices, x ∈ c.slices)) ∧
+  ((∀ x ∈ c.pods, x ∈ d.pods) ∧ (∀ x ∈ d.pods, x ∈ c.pods)) ∧
+  ((∀ x ∈ c.nodes, x ∈ d.nodes) ∧ (∀ x ∈ d.nodes, x ∈ c.nodes))
+
+instance (c d : Ctl) : Decidable (SameObjectsB c d) := by unfold SameObjectsB; exact inferInstance
+
+theorem sameObjects_of_b {c d : Ctl} (h : SameObjectsB c d) : SameObjects c d :=
+  ⟨fun x => ⟨h.1.1 x, h.1.2 x⟩, fun x => ⟨h.2.1.1 x, h.2.1.2 x⟩, fun x => ⟨h.2.2.1.1 x, h.2.2.1.2 x⟩,
+   fun x => ⟨h.2.2.2.1 x, h.2.2.2.2 x⟩⟩
+
+/-- decidable form of the `DistinctEps` hypothesis -/
+def DistinctB (c : Ctl) (h : String) : Prop :=
+  match c.svcs.find? (fun sv => sv.host = h) with
+  | none => True
+  | some sv => DistinctEps c h sv
+
+instance (c : Ctl) (h : String) : Decidable (DistinctB c h) := by
+  unfold DistinctB
+  cases c.svcs.find? (fun sv => sv.host = h) <;> exact inferInstance
+
+theorem distinct_of_b {c : Ctl} {h : String} (hb : DistinctB c h) :
+    ∀ sv, c.svcs.find? (fun sv => sv.host = h) = some sv → DistinctEps c h sv := by
+  intro sv hf
+  unfold DistinctB at hb
+  rw [hf] at hb
+  exact hb
+
 end IstioModel.C15
